@@ -11,6 +11,8 @@ From stdpp Require Import gmap.
 From Coq Require Import NArith.
 From RV Require Import Ingress.IngressModel Rib.RibModel Bmp.BmpModel Bmp.BmpStreamModel Bmp.BmpStreamProofs.
 From RV Require Import Bmp.BmpPageModel Bmp.BmpPageProofs.
+From RV Require Import Bgp.BgpSessionModel Bgp.BgpRxModel Bgp.BgpRxProofs Pipe.PipeRaw Mrt.MrtModel Mrt.MrtProofs.
+From RV Require Bgp.BgpModel.
 Local Open Scope N_scope.
 
 (* No stream of read events makes the connection task panic. *)
@@ -131,3 +133,189 @@ Print Assumptions C06_router_page_never_panics.
 Example C06_page_example :
   ring_shown (ring_of 0 [1;2;3;4;5;6;7;8;9;10;11;12]) = Some [3;4;5;6;7;8;9;10;11;12].
 Proof. vm_compute. reflexivity. Qed.
+
+(* ================================================================== *)
+(* The BGP receiver (Bgp/BgpRxModel.v): the octets of a BGP connection through routecore's
+   framing as written, routecore's parser and finite state machine as the function argument
+   [handle] (every theorem holds for EVERY such function), the way the stream ends (FIN, RST, a
+   silent peer), every order [evs] in which the select! loop can see the ticks and the queued
+   messages ([rx_sched]), the arms of the loop and the block after it (BgpSessionModel.v).
+   [rx_run fixed ...]: [fixed = true] is the code with the repair of the wedge, [false] the
+   code before it. *)
+
+(* No octets make rotonda's own code panic: the only panic site of the loop, the
+   `unimplemented!()` of the Message::Attributes arm, needs a session that sends that
+   message (routecore 0.5.1 never constructs it). *)
+Theorem C06_bgp_no_own_panic : forall (St : Type) (handle : St -> list N -> rx_hres St) fixed s0 id key live0 buf e evs,
+  sends_no_attributes handle -> rx_sched (rx_ticks_of handle s0 buf e).1 [] evs ->
+  rx_run fixed handle s0 id key live0 buf e evs <> RPanicOwn.
+Proof. exact @rx_no_own_panic. Qed.
+Print Assumptions C06_bgp_no_own_panic.
+
+(* ... and a session that does send it gets there. *)
+Theorem C06_bgp_attributes_refuted :
+  rx_run_drained true attr_fsm tt 7 5 {[6]} rx_keepalive EFin = RPanicOwn.
+Proof. exact attributes_panic. Qed.
+Print Assumptions C06_bgp_attributes_refuted.
+
+(* Progress: in no order of events does the loop run out of events while the session still
+   owes it its end (a tick error, a ConnectionLost, a dead task): every frame consumes at least
+   18 octets, the end of the stream is an event. Old and repaired code. *)
+Theorem C06_bgp_progress : forall (St : Type) (handle : St -> list N -> rx_hres St) fixed s0 id key live0 buf e evs,
+  rx_sched (rx_ticks_of handle s0 buf e).1 [] evs ->
+  rx_run fixed handle s0 id key live0 buf e evs <> RImpossible.
+Proof. exact @rx_progress. Qed.
+Print Assumptions C06_bgp_progress.
+
+(* Every run ends in the block after the loop: whatever the octets, once the peer has ended
+   the connection (FIN or RST) handle_connection returns - unless routecore itself panics - and
+   the state it leaves is the one BgpSessionModel gives for the events the loop saw, so that
+   every theorem of C07 / C02 about bs_process applies (C07_bgp_cleanup_shape, _once, ...). *)
+Theorem C06_bgp_every_run_ends : forall (St : Type) (handle : St -> list N -> rx_hres St) s0 id key live0 buf e evs,
+  sends_no_attributes handle -> never_panics handle -> e <> ESilent ->
+  rx_sched (rx_ticks_of handle s0 buf e).1 [] evs ->
+  rx_run true handle s0 id key live0 buf e evs = REnded (bs_process id key live0 (rx_plain evs)).1.
+Proof. exact @rx_every_run_ends. Qed.
+Print Assumptions C06_bgp_every_run_ends.
+
+(* ... spelled out: the gate saw Bulks of the session's own routes and then, iff the session
+   was negotiated and not rejected, exactly one Withdraw of its ingress id; the key leaves
+   live_sessions under the same condition. *)
+Theorem C06_bgp_every_run_ends_in_cleanup : forall (St : Type) (handle : St -> list N -> rx_hres St) s0 id key live0 buf e evs,
+  sends_no_attributes handle -> never_panics handle -> e <> ESilent ->
+  rx_sched (rx_ticks_of handle s0 buf e).1 [] evs ->
+  exists st, rx_run true handle s0 id key live0 buf e evs = REnded st /\
+    let s := (bs_loop id key (bs_init live0) (rx_plain evs)).1 in
+    own_trace id (bs_out s) /\
+    bs_out st = bs_out s ++ (if negb (bs_rej s) && bs_neg s then [UWithdraw id None] else []) /\
+    bs_live st = (if negb (bs_rej s) && bs_neg s then bs_live s ∖ {[key]} else bs_live s).
+Proof. exact @rx_ends_in_cleanup. Qed.
+Print Assumptions C06_bgp_every_run_ends_in_cleanup.
+
+(* A peer that stays connected and silent: the session has ended already or waits for it -
+   it is never wedged and never dead. *)
+Theorem C06_bgp_silent_peer : forall (St : Type) (handle : St -> list N -> rx_hres St) s0 id key live0 buf evs,
+  sends_no_attributes handle -> never_panics handle ->
+  rx_sched (rx_ticks_of handle s0 buf ESilent).1 [] evs ->
+  rx_run true handle s0 id key live0 buf ESilent evs = REnded (bs_process id key live0 (rx_plain evs)).1 \/
+  rx_run true handle s0 id key live0 buf ESilent evs = RWaiting (bs_loop id key (bs_init live0) (rx_plain evs)).1.
+Proof. exact @rx_silent_peer. Qed.
+Print Assumptions C06_bgp_silent_peer.
+
+(* The order in which the channel is emptied before the next tick - the one the engine makes
+   the real loop take - is one of the orders the theorems quantify over. *)
+Theorem C06_bgp_drained_is_a_schedule : forall ts, rx_sched ts [] (rx_drained ts).
+Proof. exact rx_drained_sched. Qed.
+Print Assumptions C06_bgp_drained_is_a_schedule.
+
+(* The code before the repair: an FSM that lets go of the connection without a word (an
+   UPDATE in OpenConfirm, with routecore as observed) leaves the loop waiting for ever - the
+   peer's key stays in live_sessions, nothing is withdrawn ... *)
+Theorem C06_bgp_fsm_drop_wedged_refuted :
+  (exists st, rx_run_drained false (rc_ref true rc_any rc_any) RcWait 7 5 {[6]} rx_ex_drop EFin = RWedged st /\
+     bool_decide (5 ∈ bs_live st) = true /\ bs_out st = [UBulk []]) /\
+  (exists st, rx_run_drained true (rc_ref true rc_any rc_any) RcWait 7 5 {[6]} rx_ex_drop EFin = REnded st /\
+     bool_decide (5 ∈ bs_live st) = false /\ bs_out st = [UBulk []; UWithdraw 7 None]).
+Proof. exact drop_wedges_old_code. Qed.
+Print Assumptions C06_bgp_fsm_drop_wedged_refuted.
+
+(* ... and that was its only difference from the repaired code. *)
+Theorem C06_bgp_old_code_partial : forall (St : Type) (handle : St -> list N -> rx_hres St) s0 id key live0 buf e evs,
+  match rx_run false handle s0 id key live0 buf e evs with
+  | RWedged st => (rx_ticks_of handle s0 buf e).2 = TlDropped /\
+                  rx_run true handle s0 id key live0 buf e evs = REnded (bs_cleanup id key st)
+  | r => rx_run true handle s0 id key live0 buf e evs = r
+  end.
+Proof. exact @rx_old_code_partial. Qed.
+Print Assumptions C06_bgp_old_code_partial.
+
+(* Outside the hypothesis never_panics (known finding bgp-open-after-open): with routecore as
+   observed a second OPEN kills the connection task; the key stays, nothing is withdrawn. *)
+Theorem C06_bgp_second_open_refuted :
+  exists st, rx_run_drained true (rc_ref true rc_any rc_any) RcWait 7 5 {[6]} rx_ex_open2 EFin = RDead st /\
+    bool_decide (5 ∈ bs_live st) = true /\ bs_out st = [UBulk []].
+Proof. exact second_open_kills_task. Qed.
+Print Assumptions C06_bgp_second_open_refuted.
+
+(* Framing facts. A complete frame in front of anything is cut off as it is ... *)
+Theorem C06_bgp_frame_cut : forall hdr hi lo body rest,
+  length hdr = 16%nat -> 18 <= be16 hi lo -> N.to_nat (be16 hi lo) = (18 + length body)%nat ->
+  rx_frame (hdr ++ hi :: lo :: body ++ rest) = RcFrame (hdr ++ hi :: lo :: body) rest.
+Proof. exact rx_frame_app. Qed.
+Print Assumptions C06_bgp_frame_cut.
+
+(* ... a frame the parser / FSM refuses is the last thing the session looks at, and the
+   session ends through the tick-error exit (then C06_bgp_every_run_ends applies) ... *)
+Theorem C06_bgp_refused_frame_ends_session : forall (St : Type) (handle : St -> list N -> rx_hres St) s buf f rest k e,
+  rx_frame buf = RcFrame f rest -> handle s f = HErr k ->
+  rx_ticks_of handle s buf e = ([TkEv (BTickErr k) []], TlErr).
+Proof. exact @rx_refused_frame_ends. Qed.
+Print Assumptions C06_bgp_refused_frame_ends_session.
+
+(* ... a header whose length field is below 18 is never a frame, whatever follows: the session
+   sits until the stream ends, and that end is an error (a release build of the dependency;
+   with overflow checks the subtraction panics). *)
+Theorem C06_bgp_short_length_parks : forall (St : Type) (handle : St -> list N -> rx_hres St) s hdr hi lo more,
+  length hdr = 16%nat -> be16 hi lo < 18 ->
+  rx_ticks_of handle s (hdr ++ hi :: lo :: more) EFin = ([TkEv (BTickErr 0) []], TlErr) /\
+  rx_ticks_of handle s (hdr ++ hi :: lo :: more) ERst = ([TkEv (BTickErr 0) []], TlErr) /\
+  rx_ticks_of handle s (hdr ++ hi :: lo :: more) ESilent = ([], TlSilent).
+Proof. exact @rx_short_length_parks. Qed.
+Print Assumptions C06_bgp_short_length_parks.
+
+(* An UPDATE the session hands over on a negotiated session leaves the gate as ONE Bulk of
+   exactly the route events of C04's decoder (C04_events_exact), the withdrawals first, every
+   payload under the session's ingress id; octets that do not decode yield nothing. *)
+Theorem C06_bgp_accepted_update_is_its_events : forall id key s f u,
+  bs_neg s = true -> BgpModel.decode BgpModel.Code f = Some u ->
+  bs_step id key s (BMsgUpdate (raw_upd f)) =
+  (bs_send s (UBulk (map (pay_of_ev id)
+     (List.filter is_evw (BgpModel.events u) ++ List.filter (fun e => negb (is_evw e)) (BgpModel.events u)))), true).
+Proof. exact rx_accepted_update_events. Qed.
+Print Assumptions C06_bgp_accepted_update_is_its_events.
+
+Theorem C06_bgp_undecodable_update_is_noop : forall id key s f,
+  BgpModel.decode BgpModel.Code f = None -> bs_neg s = true ->
+  bs_step id key s (BMsgUpdate (raw_upd f)) = (s, true).
+Proof. exact rx_undecodable_update_noop. Qed.
+Print Assumptions C06_bgp_undecodable_update_is_noop.
+
+(* non-vacuity: OPEN, KEEPALIVE, an UPDATE, FIN with routecore as observed: Bulk, Withdraw, the
+   key gone, the other session's key still there; a frame of an unknown type in the middle:
+   what lies behind it is never looked at. *)
+Example C06_bgp_example :
+  (exists st, rx_run_drained true (rc_ref true rc_any rc_any) RcWait 7 5 {[6]} rx_ex_session EFin = REnded st /\
+     bs_out st = [UBulk []; UWithdraw 7 None] /\ bool_decide (5 ∈ bs_live st) = false /\ bool_decide (6 ∈ bs_live st) = true) /\
+  (exists st, rx_run_drained true (rc_ref true rc_any rc_any) RcWait 7 5 {[6]}
+                (rx_open_min ++ rx_keepalive ++ rx_hdr 19 9 ++ rx_update_empty) ESilent = REnded st /\
+     bs_out st = [UWithdraw 7 None] /\ bool_decide (5 ∈ bs_live st) = false).
+Proof. split; [exact example_session|exact example_refused]. Qed.
+
+(* ================================================================== *)
+(* The MRT reader (Mrt/MrtModel.v). Whatever the octets of a file, process_file is handed
+   nothing (unreadable) or the records up to the point where routecore's parser stops
+   ([file_of_hfile]). Such a file is local: the queue is what it was before the file, the file's
+   own contribution, then the files behind it exactly as they run on their own from the
+   register it left; its contribution is a prefix of what the undamaged file would have
+   contributed (nothing for an unreadable file); and the RIB behind the gate is built from
+   just these updates, in this order. *)
+Theorem C06_mrt_file_is_local : forall parent r fs1 h fs2 rb,
+  let '(r1, us1) := queue_run parent r fs1 in
+  let '(rh, ush, _) := process_file parent r1 (file_of_hfile h) in
+  let '(r2, us2) := queue_run parent rh fs2 in
+  queue_run parent r (fs1 ++ file_of_hfile h :: fs2) = (r2, us1 ++ ush ++ us2) /\
+  ush `prefix_of` (process_file parent r1 (whole_of_hfile h)).1.2 /\
+  (h = HUnreadable -> ush = [] /\ rh = r1) /\
+  fold_left rib_apply (queue_run parent r (fs1 ++ file_of_hfile h :: fs2)).2 rb =
+    fold_left rib_apply us2 (fold_left rib_apply ush (fold_left rib_apply us1 rb)).
+Proof. exact hostile_file_local. Qed.
+Print Assumptions C06_mrt_file_is_local.
+
+(* non-vacuity: a dump cut inside its second RIB record between two good update files: the
+   first file's route, the two entries of the first RIB record, the last file's route. *)
+Example C06_mrt_example :
+  (queue_run unit_start.1 unit_start.2 [hq_before; file_of_hfile hq_hostile; hq_after]).2 =
+    [UBulk [MkPay (0, 60, 2) true 2];
+     UBulk [MkPay (0, 21, 3) true 3]; UBulk [MkPay (0, 21, 4) true 4];
+     UBulk [MkPay (0, 1, 5) true 9]].
+Proof. exact hostile_example. Qed.
